@@ -22,9 +22,9 @@ def hostile(rnd, maxlen=200):
     if shape < 0.05:
         n = rnd.randint(0, 3)
     elif shape < 0.9:
-        n = rnd.randint(1, 40)
+        n = rnd.randint(1, min(40, maxlen))
     else:
-        n = rnd.randint(40, maxlen)
+        n = rnd.randint(min(40, maxlen), maxlen)
     parts = []
     newline_bias = rnd.random()
     for _ in range(n):
